@@ -47,6 +47,7 @@ class Rig:
             locator._spas = [GeckoAsyncSpaDescriptor(b"SPA01:02:03:04:05:06", "Spa", ("10.0.0.1", 10022))] if found else []
 
         self.spas = []                     # every spa object the manager ever created
+        self.facades = []                  # every facade object the manager ever created
 
         async def connect(spa):
             # emits what GeckoAsyncSpa._connect emits, step by step, on demand
@@ -76,6 +77,7 @@ class Rig:
         class FakeFacade:
             def __init__(self, spa, taskman):
                 self.disconnected = False
+                rig.facades.append(self)
 
                 class WC:
                     def change_watercare_mode(self, m):
@@ -109,6 +111,10 @@ class Rig:
     def abandoned_not_disconnected(self):
         """spa objects the manager no longer references on which disconnect() never completed: whatever they hold (endpoint, tasks) is lost"""
         return sum(1 for spa in self.spas if spa is not self.man._spa and not getattr(spa, "_disconnected", False))
+
+    def facades_dropped_alive(self):
+        """facade objects the manager no longer references that were never disconnected since: their update task keeps running for nobody"""
+        return sum(1 for f in self.facades if f is not self.man._facade and not f.disconnected)
 
     def snapshot(self):
         m = self.man
